@@ -343,31 +343,154 @@ def prior_writes(rng, pool, tags, observe_seed=None):
 # ------------------------------------------------------------------ storage functions
 FORMATS = ['pickle', 'json', 'xml']
 
-def dump_with(fmt, ar, via):
+# how an archive travels: 'string' (dumps/loads), 'file' (an in-memory file object), or a REAL file used the way the
+# documentation shows -- opened in the documented mode ('wb'/'rb' pickle, 'w'/'r' JSON, binary or a file NAME for XML,
+# text mode with encoding='unicode' for XML), the archive at a non-zero offset behind a preamble the application wrote,
+# and, for pickle ("Several archives can be saved in the same file by repeated use of this function"), one of several
+# archives dumped one after another into the same binary file and loaded back one after another.  JSON and XML files hold
+# one document ("Only one archive can be saved in a file"), behind a preamble at most.
+VIAS = {'pickle': ['string', 'file', 'disk', 'disk_multi', 'disk_multi', 'disk_offset'],
+        'json': ['string', 'file', 'disk', 'disk_offset'],
+        'xml': ['string', 'file', 'disk', 'disk_offset', 'disk_name', 'disk_text'],
+        'legacy': ['string', 'file', 'disk']}
+
+def choose_via(rng, fmt):
+    return rng.choice(VIAS[fmt])
+
+class OtherArchiveLost(Exception):
+    """another archive of the same file could not be read back (or is not what was written)"""
+
+_TMP = []
+def _tmpfile(suffix):
+    import tempfile, atexit
+    if not _TMP:
+        os.makedirs(BUILD, exist_ok=True)
+        _TMP.append(tempfile.mkdtemp(prefix='c07_files_', dir=BUILD)); _TMP.append(0)
+        atexit.register(lambda: shutil.rmtree(_TMP[0], ignore_errors=True))
+    _TMP[1] += 1
+    return os.path.join(_TMP[0], 'f%d%s' % (_TMP[1], suffix))
+
+PREAMBLE = 'GTC archives of run 17\n'
+
+def _values(ar_tags, pool):
+    return {t: hx(pool[n].x) for t, n in ar_tags.items()}
+
+def dump_with(fmt, ar, via, multi=None):
+    """returns the document (str / bytes) or, for the 'disk*' forms, a handle {path, ...} with the document under 'content'.
+    multi = (rng, pool): where the other archives of a several-archives file come from"""
     from GTC import persistence as pr
+    if via.startswith('disk') and via not in VIAS.get(fmt, []): via = 'disk'
+    if not via.startswith('disk'):
+        if fmt == 'pickle':
+            if via == 'string': return pr.dumps(ar)
+            f = io.BytesIO(); pr.dump(f, ar); return f.getvalue()
+        if fmt == 'json':
+            if via == 'string': return pr.dumps_json(ar)
+            f = io.StringIO(); pr.dump_json(f, ar); return f.getvalue()
+        if fmt == 'xml':
+            if via == 'string': return pr.dumps_xml(ar)
+            f = io.BytesIO(); pr.dump_xml(f, ar); return f.getvalue()
+        if fmt == 'legacy':
+            from GTC import json_format_old
+            ar._freeze()
+            return json.dumps(ar, cls=json_format_old.JSONArchiveEncoder)
+        raise ValueError(fmt)
+    h = {'via': via, 'fmt': fmt, 'offset': 0, 'before': [], 'after': []}
     if fmt == 'pickle':
-        if via == 'string': return pr.dumps(ar)
-        f = io.BytesIO(); pr.dump(f, ar); return f.getvalue()
-    if fmt == 'json':
-        if via == 'string': return pr.dumps_json(ar)
-        f = io.StringIO(); pr.dump_json(f, ar); return f.getvalue()
+        h['path'] = path = _tmpfile('.gar')
+        others_b, others_a = [], []
+        if via == 'disk_multi':
+            rng, pool = multi
+            def other():
+                names = list(pool); rng.shuffle(names)
+                sub = {'o%d' % i: n for i, n in enumerate(names[:rng.randint(1, min(3, len(names)))])}
+                return make_archive(sub, pool), _values(sub, pool)
+            nb = rng.randint(0, 2); na = rng.randint(0 if nb else 1, 2)
+            others_b = [other() for _ in range(nb)]; others_a = [other() for _ in range(na)]
+        with open(path, 'wb') as f:
+            if via == 'disk_offset':
+                f.write(PREAMBLE.encode()); h['offset'] = f.tell()
+            for a, v in others_b: pr.dump(f, a); h['before'].append(v)
+            start = f.tell()
+            pr.dump(f, ar)
+            end = f.tell()
+            for a, v in others_a: pr.dump(f, a); h['after'].append(v)
+        with open(path, 'rb') as f:
+            f.seek(start); h['content'] = f.read(end - start)
+        return h
+    if fmt in ('json', 'legacy'):
+        h['path'] = path = _tmpfile('.json')
+        with open(path, 'w') as f:
+            if via == 'disk_offset':
+                f.write(PREAMBLE); h['offset'] = len(PREAMBLE)
+            if fmt == 'json': pr.dump_json(f, ar)
+            else: f.write(dump_with('legacy', ar, 'string'))
+        with open(path) as f:
+            f.read(h['offset']); h['content'] = f.read()
+        return h
     if fmt == 'xml':
-        if via == 'string': return pr.dumps_xml(ar)
-        f = io.BytesIO(); pr.dump_xml(f, ar); return f.getvalue()
-    if fmt == 'legacy':
-        from GTC import json_format_old
-        ar._freeze()
-        return json.dumps(ar, cls=json_format_old.JSONArchiveEncoder)
+        h['path'] = path = _tmpfile('.xml')
+        if via == 'disk_name':
+            pr.dump_xml(path, ar)
+        elif via == 'disk_text':
+            with open(path, 'w') as f: pr.dump_xml(f, ar, encoding='unicode')
+        else:
+            with open(path, 'wb') as f:
+                if via == 'disk_offset':
+                    f.write(PREAMBLE.encode()); h['offset'] = f.tell()
+                pr.dump_xml(f, ar)
+        with open(path, 'rb') as f:
+            f.seek(h['offset']); h['content'] = f.read()
+        return h
     raise ValueError(fmt)
+
+def doc_content(doc):
+    return doc['content'] if isinstance(doc, dict) else doc
+
+def _load_other(f, expect, k):
+    """read one of the other archives of a several-archives file in a throw-away Context"""
+    from GTC import persistence as pr, context
+    saved = context._context
+    try:
+        new_context(880000 + k)
+        try:
+            a = pr.load(f)
+            got = {t: hx(a[t].x) for t in expect}
+        except Exception as ex:
+            raise OtherArchiveLost('%s: %r' % (type(ex).__name__, ex))
+        if got != expect: raise OtherArchiveLost('another archive of the file came back different')
+    finally:
+        context._context = saved
 
 def load_with(fmt, doc, via):
     from GTC import persistence as pr
+    if not isinstance(doc, dict):
+        if via.startswith('disk'): via = 'file'
+        if fmt == 'pickle':
+            return pr.loads(doc) if via == 'string' else pr.load(io.BytesIO(doc))
+        if fmt in ('json', 'legacy'):
+            return pr.loads_json(doc) if via == 'string' else pr.load_json(io.StringIO(doc))
+        if fmt == 'xml':
+            return pr.loads_xml(doc) if via == 'string' else pr.load_xml(io.BytesIO(doc))
+        raise ValueError(fmt)
+    h = doc; via = h['via']
     if fmt == 'pickle':
-        return pr.loads(doc) if via == 'string' else pr.load(io.BytesIO(doc))
+        with open(h['path'], 'rb') as f:
+            if h['offset']: f.seek(h['offset'])
+            for k, v in enumerate(h['before']): _load_other(f, v, k)
+            ar = pr.load(f)
+            for k, v in enumerate(h['after']): _load_other(f, v, 10 + k)
+            if f.read(1) != b'': raise OtherArchiveLost('data left in the file')
+        return ar
     if fmt in ('json', 'legacy'):
-        return pr.loads_json(doc) if via == 'string' else pr.load_json(io.StringIO(doc))
+        with open(h['path'], 'r') as f:
+            if h['offset']: f.readline()
+            return pr.load_json(f)
     if fmt == 'xml':
-        return pr.loads_xml(doc) if via == 'string' else pr.load_xml(io.BytesIO(doc))
+        if via == 'disk_name': return pr.load_xml(h['path'])
+        with open(h['path'], 'r' if via == 'disk_text' else 'rb') as f:
+            if h['offset']: f.seek(h['offset'])
+            return pr.load_xml(f)
     raise ValueError(fmt)
 
 def make_archive(tags, pool, legacy=False):
